@@ -200,6 +200,18 @@ def family_F3(quick):
                         ("auto", "line")):
                 cs.append((m, k, dist, nm, names, arg))
           yield unit("F3", "gfa1", lines, cs)
+  # a dangling reference (placeholder segment) whose name is the name the
+  # automatic scheme would choose, or a requested copy name
+  for m, dang in (("A", "A*2"), ("A", "A*3"), ("A*2", "A*3"), ("A", "X")):
+    lines = [T(["S", m, "*", "RC:i:7"]), T(["S", "B", "*"]),
+             T(["L", m, "+", "B", "+", "*", "RC:i:7"]),
+             T(["L", "B", "-", dang, "+", "*"])]
+    cs = []
+    for k in (2, 3):
+      for nm, names in (("auto", None), ("taken-placeholder", ["Y", dang][-(k - 1):])):
+        for dist, arg in ((None, "name"), ("auto", "line")):
+          cs.append((m, k, dist, nm, names, arg))
+    yield unit("F3", "gfa1", lines, cs)
 
 
 G2LEN = {"A": 6, "B": 8, "C": 4}
@@ -363,7 +375,14 @@ def run_case(c):
   v = c["v"]
   try:
     with guard():
-      g = gfapy.Gfa(c["lines"], version=v)
+      try:
+        g = gfapy.Gfa(c["lines"], version=v)
+      except gfapy.NotFoundError:
+        # graph with a dangling reference: built line by line (no final
+        # validation); the placeholder is part of the written form
+        g = gfapy.Gfa(version=v)
+        for l_ in c["lines"]:
+          g.add_line(l_)
       ck = (v, tuple(c["lines"]))
       before = _BEFORE.get(ck)
       if before is None:
@@ -380,7 +399,8 @@ def run_case(c):
   except Exception as e:
     info["skip"] = "build-refused:" + type(e).__name__
     return [], info
-  if sorted(before) != sorted(c["lines"]):
+  if sorted(l_ for l_ in before if "GFAPY_virtual_line" not in l_) != \
+      sorted(c["lines"]):
     info["skip"] = "build-altered"
     return [], info
   m, k = c["m"], c["k"]
@@ -407,7 +427,7 @@ def run_case(c):
         type(e).__name__))], info
   info["after"] = after
   probs = []
-  refusal_expected = (k < 0) or c["nm"] in ("taken", "taken-path", "dup", "own")
+  refusal_expected = (k < 0) or c["nm"] in ("taken", "taken-path", "taken-placeholder", "dup", "own")
   if err is not None:
     info["exc"] = type(err).__name__
     site = callsite(err)
@@ -582,7 +602,7 @@ def run_chunk(units):
     r["evaluations"] += 1
     r["transitions"] += 1
     if info["exc"] is None or c["k"] < 0 or \
-        c["nm"] in ("taken", "taken-path", "dup", "own"):
+        c["nm"] in ("taken", "taken-path", "taken-placeholder", "dup", "own"):
       # the outcome was compared with the reference model's prediction
       # (not the case after an exception on a legal call, which is reported
       # as such)
